@@ -272,6 +272,31 @@ theorem fit_never_when_numGPU_huge (common : Inp) (groups : List (Lib × List Gp
       have := hh.2.2.2 (by omega)
       omega
 
+/-! ### `ByLibrary` and `PredictServerFit` on the whole GPU list -/
+
+/-- **`ByLibrary` partitions the list**: group sizes add up to the list length, no group is empty
+    (the estimator reads `gpus[0]`), every member carries its group's `Library[_Variant]` key. -/
+theorem byLibrary_partition (l : List FGpu) :
+    groupTotal (byLibrary l) = l.length ∧
+    (∀ g ∈ byLibrary l, g.members ≠ []) ∧
+    (∀ g ∈ byLibrary l, ∀ m ∈ g.members, m.key = g.key) := byLibrary_spec l
+
+/-- `fit_only_if_placed` for the real entry point: the groups are the ones `ByLibrary` forms. -/
+theorem fit_all_only_if_placed (common : Inp) (all : List FGpu) (v : Nat)
+    (h : predictFitAll common all = (true, v)) :
+    ∃ g ∈ byLibrary all, g.members ≠ [] ∧
+      let e := estimate { common with lib := g.lib, gpus := g.gpus }
+      v = e.vram ∧ 0 < e.layers ∧
+      (common.numGPU < 0 → e.layers = common.blocks.length + 1) ∧
+      (0 ≤ common.numGPU → (e.layers : Int) = common.numGPU) := by
+  obtain ⟨lib, gpus, hm, hh⟩ := fit_only_if_placed common _ v h
+  simp only [List.mem_map] at hm
+  obtain ⟨g, hg, heq⟩ := hm
+  simp only [Prod.mk.injEq] at heq
+  obtain ⟨h1, h2⟩ := heq
+  subst h1; subst h2
+  exact ⟨g, hg, (byLibrary_spec all).2.1 g hg, hh⟩
+
 /-! ### the scheduler's adjustment of the free figure (server/sched.go `updateFreeSpace`) -/
 
 /-- **The adjusted free memory never exceeds the reported one.**  For every GPU list (duplicate
@@ -315,6 +340,28 @@ theorem sched_alloc_le_reported (inp : Inp) (hnw : NoWrap inp)
   rcases h1 with h | h
   · exact Or.inl h
   · exact Or.inr (by omega)
+
+/-- **History level: what is planned for the next model plus what was predicted for the loaded
+    ones fits in the GPU's total memory.**  Same correspondence as `sched_alloc_le_reported`; some
+    runner is loaded and its/their summed prediction for the GPU does not exceed the total. -/
+theorem planned_plus_predicted_le_total (inp : Inp) (hnw : NoWrap inp)
+    (rep : List SGpu) (runners : List Runner) (i j : Nat) (g : Gpu) (r : SGpu) (a : Nat)
+    (hany : runners.any (·.isSome) = true) (hp : predOf rep runners r.key ≤ r.total)
+    (hg : inp.gpus[i]? = some g) (hr : rep[j]? = some r)
+    (hadj : (updateFree rep runners)[j]? = some g.free)
+    (ha : (estimate inp).sizes[i]? = some a) :
+    a = 0 ∨ a + inp.overhead + predOf rep runners r.key ≤ r.total := by
+  have h1 := (alloc_le_free_partial inp hnw i g a hg ha).1
+  have h2 := free_within_total rep runners j r g.free hany hp hr hadj
+  rcases h1 with h | h
+  · exact Or.inl h
+  · exact Or.inr (by omega)
+
+/-- `EstimatedVRAMByGPU` (what feeds the predictions) reports 0 or a size of the estimate -/
+theorem vramByGPU_is_planned_size (ids sizes : List Nat) (id : Nat) :
+    vramByGPU ids sizes id = 0 ∨
+    ∃ k : Nat, ids[k]? = some id ∧ sizes[k]? = some (vramByGPU ids sizes id) :=
+  vramByGPU_spec ids sizes id
 
 /-- the seeded change "always trust our numbers" (`FreeMemory = Total - predicted` unconditionally)
     is excluded by `free_never_raised`: with 1000 total, 100 reported free and 300 predicted it would
